@@ -163,10 +163,12 @@ theorem transform_nodup {T : Tables} {tag : Str} {bnd : Option Bind} {st st6 : T
   have n5 := (transformTabindex_reach h5).nodup (Dict.nodup_erase _ _ n4)
   exact (transformFilters_reach h6).nodup (Dict.nodup_erase _ _ n5)
 
-/-- the `type` a browser sees is neither checkbox nor radio (types are ASCII case-insensitive there) -/
+/-- the `type` a browser sees is neither checkbox nor radio, nor one of the types whose `value` is
+    never posted (reset, button, file, image); types are ASCII case-insensitive there.  `submit`
+    is allowed: the theorem then says what that input posts as THE activated submitter. -/
 def browserTextLike (attrs : Attrs) : Prop :=
   let ty := asciiLower (((Dict.get? attrs sType).bind Val.str?).getD "text".toList)
-  ty ≠ "checkbox".toList ∧ ty ≠ "radio".toList
+  ty ≠ "checkbox".toList ∧ ty ≠ "radio".toList ∧ inputNeverPosts ty = false
 
 /-- POSTS FLAT PAIR — text-like `<input>`: after the transforms, the browser rule posts exactly
     `(flattened name, u)`. -/
@@ -184,13 +186,15 @@ theorem posts_flat_pair_input (T : Tables) (b : Bind) (st st6 : TState) (text : 
   have hne : b.flatName.isEmpty = false := by simpa using hname
   unfold Spec.PostsFlatPair submittedD submitted
   simp only [attr?_strAttrs _ hn6, a1, a2, a3, Option.bind_some, Val.str?, hne, Bool.false_eq_true, if_false, if_true]
-  obtain ⟨b1, b2⟩ := hbr
-  rw [decide_eq_false b1, decide_eq_false b2]
+  obtain ⟨b1, b2, b3⟩ := hbr
+  rw [decide_eq_false b1, decide_eq_false b2, b3]
   simp only [Bool.or_self, Bool.false_eq_true, if_false, Option.getD_some]
 
-/-- POSTS FLAT PAIR — `<button>` (value attribute) -/
+/-- POSTS FLAT PAIR — `<button>` without a `type` attribute (a submit button): when it is THE
+    activated submitter it posts `(flattened name, u)` from its value attribute -/
 theorem posts_flat_pair_button (T : Tables) (b : Bind) (st st6 : TState) (text : Str) (hp : Plain T st)
     (hnd : (Dict.keys st.attrs).Nodup) (hnoval : Dict.get? st.attrs sValue = none)
+    (hnoty : Dict.get? st.attrs sType = none)
     (hname : b.flatName ≠ [])
     (hT1 : T.autoTag sName "button".toList = true) (hT2 : T.autoTag sValue "button".toList = true)
     (h : transform T "button".toList (some b) st = .ok st6) :
@@ -211,17 +215,22 @@ theorem posts_flat_pair_button (T : Tables) (b : Bind) (st st6 : TState) (text :
   have hl : "button".toList ≠ sLabel := by decide
   have f1 := (later_frame sName (by decide) hl h3 h4 h5 h6).1
   have f2 := (later_frame sValue (by decide) hl h3 h4 h5 h6).1
-  simp only at f1 f2
+  have f3 := (later_frame sType (by decide) hl h3 h4 h5 h6).1
+  simp only at f1 f2 f3
   have m1 : sName ≠ sValue := by decide
+  have m2 : sType ≠ sValue := by decide
+  have m3 : sType ≠ sName := by decide
   rw [Dict.get?_set_other _ _ _ _ m1, Dict.get?_set_self] at f1
   rw [Dict.get?_set_self] at f2
+  rw [Dict.get?_set_other _ _ _ _ m2, Dict.get?_set_other _ _ _ _ m3, hnoty] at f3
   have hn6 := transform_nodup hnd h
   have hne : b.flatName.isEmpty = false := by simpa using hname
   have e1 : "button".toList ≠ sInput := by decide
   have e2 : "button".toList ≠ sTextarea := by decide
+  have e3 : buttonNeverPosts (asciiLower "submit".toList) = false := by decide
   unfold Spec.PostsFlatPair submittedD submitted
-  simp only [attr?_strAttrs _ hn6, f1, f2, Option.bind_some, Val.str?, hne, Bool.false_eq_true, if_false, e1, e2,
-    if_true, Option.getD_some]
+  simp only [attr?_strAttrs _ hn6, f1, f2, f3, Option.bind_some, Option.bind_none, Val.str?, hne, Bool.false_eq_true,
+    if_false, e1, e2, if_true, Option.getD_some, Option.getD_none, e3]
 
 /-- POSTS FLAT PAIR — `<textarea>`: the contents are the escaped text, which a browser reads back
     as `u` (C11 `decodeRefs_escape`); stated on the contents string -/
@@ -720,7 +729,7 @@ theorem fresh_enabled :
     non-empty flat name and every attribute order setting -/
 theorem fresh_input_posts (b : Bind) (ty text : Str)
     (hty : textLike (.text (kwLower ty)) = true)
-    (hbr : asciiLower ty ≠ "checkbox".toList ∧ asciiLower ty ≠ "radio".toList)
+    (hbr : asciiLower ty ≠ "checkbox".toList ∧ asciiLower ty ≠ "radio".toList ∧ inputNeverPosts (asciiLower ty) = false)
     (hname : b.flatName ≠ []) (r : TagResult)
     (h : prepareTag Tables.current Flatland.Generated.C11.staticAttributeOrder freshGen sInput (some b)
       [(sType, .text ty)] = .ok r) :
